@@ -438,6 +438,9 @@ func runC06(c *core.Ctx) error {
 	gf := 0.03
 	if c.Thorough() {
 		gf = 0.1
+		if n := len(cases); n > 20000 {
+			gf = 2000.0 / float64(n)
+		}
 	}
 	c.Assume("pooled frames are poisoned through the verif hook; correct code never reads a pooled frame, so poisoning is invisible to it (the baseline suite passes with poisoning on)")
 	return RunProgCases(c, cases, ProgOpts{GateFraction: gf, Prelude: c06Prelude, Sig: c06Sig, Reuse: 40})
